@@ -54,6 +54,13 @@ class AbstractPoly:
             raise core.Unsupported('polygon.intersects of something that is not a geometry term')
         return mk_bool(pred(other.z, self.term))
 
+    @property
+    def bounds(self):
+        # SH-BOUNDS: (min x, min y, max x, max y) of the polygon, as terms
+        from pyvc.lib.floats import FIN, SFloat
+        from pyvc.lib.shapely_ import _fn
+        return tuple(SFloat(FIN, core.mk_real(_fn('geom_bound_' + k, GeomSort, z3.RealSort())(self.term))) for k in ('minx', 'miny', 'maxx', 'maxy'))
+
     def intersection(self, other):
         from pyvc.lib.shapely_ import intersection_of
         return intersection_of(self.term, other)
